@@ -10,6 +10,7 @@ package main
 //	so tset <Mesg> <Field> <x>                      mesgdef SetXxxScaled(x)                           → <raw>
 //	sox <route> <bt> <scale> <offset> <lo> <n>      the round trip for every raw pattern in [lo, lo+n) → n= fails= first= digest=
 //	sotx <Mesg> <Field> <lo> <n> <stride>           typed getter/setter round trip for lo, lo+stride, … (n values)
+//	sots / sov / socd                               see fam_scaleoffset_more.go
 //
 // <ty> ∈ i8 u8 i16 u16 i32 u32 i64 u64 f32 f64; <bt> base type byte, 2 hex digits; <raw>: the value's bit
 // pattern in hex, exactly the type's width; <raws>: comma-separated list (routes vals, gens, anys) or one value;
@@ -951,6 +952,15 @@ func genScaleOffset(emit func(string), tier string, rng *Rng) {
 		}
 		emit(fmt.Sprintf("so typed %s %s %0*x", acc.info.mesg, acc.info.field, acc.bits/4, acc.info.invalid))
 	}
+	// 6. slice / fixed-array accessors element by element; 7. one validator over a sequence of messages with natively-mapped
+	// developer fields; 8. the '.' of the CSV writer's float64 text (fam_scaleoffset_more.go)
+	genSoSlices(emit, tier, rng)
+	genSoValidatorSeq(emit, tier, rng)
+	var pl [][2]float64
+	for _, p := range pairs {
+		pl = append(pl, [2]float64{p.s, p.o})
+	}
+	genSoCsvDot(emit, tier, rng, pl)
 }
 
 // ---------------------------------------------------------------- developer fields with a native-field override
